@@ -422,7 +422,13 @@ fn value_as_tags(val: &serde_yaml::Value) -> Result<Vec<Cow<str>>, MetadataError
         s.split(',').map(|e| e.trim().into()).collect()
     } else if let Some(seq) = val.as_sequence() {
         seq.iter()
-            .map(|val| val.as_str_like())
+            .map(|val| {
+                // trimmed like the entries of a comma separated string
+                val.as_str_like().map(|tag| match tag {
+                    Cow::Borrowed(s) => Cow::Borrowed(s.trim()),
+                    Cow::Owned(s) => Cow::Owned(s.trim().to_string()),
+                })
+            })
             .collect::<Option<Vec<_>>>()
             .ok_or(MetadataError::BadSequenceType {
                 expected: MetaType::String,
